@@ -1,16 +1,7 @@
 import LinfaSpec.Drv.All
+import LinfaSpec.Drv.Loop
 
-open LinfaSpec
-
-partial def loop (h : IO.FS.Stream) (out : IO.FS.Stream) : IO Unit := do
-  let line ← h.getLine
-  if line.isEmpty then return ()
-  let toks := (line.trimAscii.toString.splitOn " ").filter (· ≠ "")
-  out.putStrLn (Drv.dispatch toks)
-  loop h out
-
-def main : IO Unit := do
-  let i ← IO.getStdin
-  let o ← IO.getStdout
-  loop i o
-  o.flush
+/-- `drv`: every property whose model is hand-written.  Properties whose model is regenerated
+from /repo's sources by a translator (C04, C19) have their own executables (`drv04`, `drv19`),
+so that a source change which breaks a regenerated file can only break that property's driver. -/
+def main : IO Unit := LinfaSpec.Drv.run LinfaSpec.Drv.dispatch
